@@ -17,7 +17,7 @@ From Coq Require Import ZArith List Bool String Sorted Permutation.
 From FrameModel Require Import Num.QcTac PB.Expr PB.Cnf PB.Robdd PB.Codify PB.Sat
   RectSearch.Coords RectSearch.Names RectSearch.Encode RectSearch.Registry RectSearch.Shapes RectSearch.EncodeFacts
   RectSearch.GridFacts RectSearch.BoxFacts RectSearch.AttachFacts RectSearch.ShapesFacts RectSearch.SearchFacts
-  RectSearch.BboxFacts RectSearch.Examples RectSearch.GridGen RectSearch.GridTheorems.
+  RectSearch.BboxFacts RectSearch.Examples RectSearch.GridGen RectSearch.GridTheorems RectSearch.SelectBox.
 Import ListNotations.
 Local Open Scope nat_scope.
 
@@ -180,3 +180,19 @@ Theorem C08_registration_irrelevant : forall mode inp k factor ratio bound (m0 :
   end.
 Proof. exact encode_reg_encode. Qed.
 Print Assumptions C08_registration_irrelevant.
+
+(* rect_io.select_box (with the shared-border repair fixes/C08-select-box-shared-borders.diff): from the
+   allocation of a grid - the cells of the grid on xs, ys in any order, each stored as centre and size
+   [arect_of] with the ratios of its modules - whose lines are further apart than the snapping tolerance
+   (1e-9 x the largest coordinate magnitude), select_box returns exactly those cells with the selected
+   module's ratio (0 where it is absent), and they are a grid on xs, ys: the hypotheses of
+   C08_shapes_exact_grid / C08_search_exact_grid hold of what the search receives.  (Exact rationals: the
+   binary64 rounding of centre -/+ size / 2 that the repair absorbs is judged by the harness's direct
+   oracle on decimal coordinates.) *)
+Theorem C08_select_box_grid : forall xs ys sel (cms : list (cell * list (string * Qc))),
+  StronglySorted Qclt xs -> StronglySorted Qclt ys -> 2 <= List.length xs -> 2 <= List.length ys ->
+  is_grid xs ys (map fst cms) -> spaced (snap_tol xs) xs -> spaced (snap_tol ys) ys ->
+  select_box sel (map (fun cm => arect_of (fst cm) (snd cm)) cms) = map (cell_of sel) cms /\
+  is_grid xs ys (map (cell_of sel) cms).
+Proof. exact select_box_of_grid. Qed.
+Print Assumptions C08_select_box_grid.
